@@ -103,6 +103,7 @@ def info(tier):
     cells += [f"{a}|{path}|{v}" for a in VECTOR_ATOMS for path in ("gradient", "jacobian", "hessian") for v in VRELS]
     cells += ["norm2@origin|gradient", "norm2@origin|jacobian", "norm2@one-zero|gradient"]
     cells += [f"deep:{a}|{path}" for a in list(SCALAR_ATOMS) + list(VECTOR_ATOMS) for path in ("gradient", "jacobian", "hessian")]
+    cells += [f"{c}|{path}" for c, _, _ in composite_items() for path in ("gradient", "jacobian", "hessian")]
     return {
         "level": LEVEL,
         "rule": "separable sums of singular atoms (17 scalar, 7 vectorised, L2 norm) with coefficients of both signs and a "
@@ -114,6 +115,7 @@ def info(tier):
         "assumptions": [
             "expected classes at singular coordinates are hand-specified mathematical limits (undefined->0, unbounded->+-1e16, one-sided sign at +0)",
             "overflow points (exp at 1000) are outside the statement and not judged",
+            "composites whose derivative is a 0*inf or c/0 form (log of a reduction at the origin, reciprocals of reductions): the callable must return, with finite entries, and the entries of uninvolved variables must be the regular ones; no particular value is demanded at the singular entries",
         ],
     }
 
@@ -382,6 +384,82 @@ def run_item(rec, rng, item):
     rec.sample(show)
 
 
+def composite_items():
+    """(cell, singular composite over x / a / b, point of the involved variables): the derivative is a 0*inf or c/0 composite, so only
+    "returns, and returns finite entries" is demanded there; the entries of the uninvolved variables s, t must be the regular ones."""
+    x = ["vec", "x"]
+    a, b_ = ["var", "a"], ["var", "b"]
+    one = ["raw", 1.0, "float"]
+    O4 = {f"x[{i}]": 0.0 for i in range(4)}
+    bal = {"x[0]": 1.0, "x[1]": -1.0, "x[2]": 0.5, "x[3]": -0.5}
+    return [
+        ("composite:log(sum x^2)@origin", ["fn", "log", ["sum", ["vpow", x, 2]]], O4),
+        ("composite:log(sum |x|)@origin", ["fn", "log", ["sum", ["vfn", "abs", x]]], O4),
+        ("composite:1/sum x^2@origin", ["bin", "/", one, ["sum", ["vpow", x, 2]]], O4),
+        ("composite:1/x.x@origin", ["bin", "/", one, ["dot", x, x]], O4),
+        ("composite:sqrt(x.x)@origin", ["fn", "sqrt", ["dot", x, x]], O4),
+        ("composite:log(norm)@origin", ["fn", "log", ["norm", x, 2, "method"]], O4),
+        ("composite:1/norm1@origin", ["bin", "/", one, ["norm", x, 1, "method"]], O4),
+        ("composite:1/sum(x)@balanced", ["bin", "/", one, ["sum", x]], bal),
+        ("composite:(sum x)^-2@balanced", ["bin", "**", ["sum", x], ["raw", -2, "int"]], bal),
+        ("composite:x.x/sum(x)@balanced", ["bin", "/", ["dot", x, x], ["sum", x]], bal),
+        ("composite:qf/sum@origin", ["bin", "/", ["qf", ["slice", x, 0, 2, None], [[2.0, 0.5], [0.5, 1.0]]], ["sum", ["vpow", x, 2]]], O4),
+        ("composite:log(a*b)@a=0", ["fn", "log", ["bin", "*", a, b_]], {"a": 0.0, "b": 1.5}),
+        ("composite:1/(a-b)@a=b", ["bin", "/", one, ["bin", "-", a, b_]], {"a": 0.75, "b": 0.75}),
+        ("composite:c/(a*a)@0", ["bin", "/", ["raw", 3.0, "float"], ["bin", "*", a, a]], {"a": 0.0}),
+        ("composite:sum(x)/a@0", ["bin", "/", ["sum", x], a], {"a": 0.0, **{k: v + 1.0 for k, v in O4.items()}}),
+        ("composite:mean-log", ["bin", "/", ["sum", ["vfn", "log", x]], ["raw", 4.0, "float"]], O4),
+    ]
+
+
+def run_composite(rec, rng, cell, node, spt, k):
+    from optyx.core import autodiff as AD
+    from optyx.core import compiler as C
+
+    D = R.Decls(DECLS)
+    reg = REGULAR[1 + k % 2]
+    full = ["bin", "+", node, reg] if k % 3 else ["bin", "+", reg, ["bin", "*", ["raw", -2.0, "float"], node]]
+    rec.case({"composite": cell, "k": k}, nontrivial=True)
+    used = R.ref_vars(D, full)
+    V = make_V(rng, used, VRELS[k % 4])
+    point = {nm: 0.9 for nm in V}
+    point.update({"s": 0.8, "t": -0.4})
+    point.update({nm: v for nm, v in spt.items()})
+    for nm in used:
+        point.setdefault(nm, 0.9)
+    show = {"expr": A.render(full), "V": V, "point": {nm: point[nm] for nm in V}}
+    jr, _ = R.ref_jet(D, reg, V, {**{nm: 0.9 for nm in V}, "s": 0.8, "t": -0.4}, order=1)
+    regular_idx = {i: float(jr.g[i]) for i, nm in enumerate(V) if nm in ("s", "t")}
+    try:
+        b = B.Builder(DECLS)
+        e = b.S(full)
+    except Exception as ex:
+        rec.violation("build-raises:" + type(ex).__name__, {"show": show, "error": repr(ex)[:200]})
+        return
+    Vobjs = b.variables(V)
+    xarr = B.point_array(V, point)
+    for route, mk in (("gradient", lambda: C.compile_gradient(e, Vobjs)), ("jacobian", lambda: AD.compile_jacobian([e], Vobjs)),
+                      ("hessian", lambda: AD.compile_hessian(e, Vobjs))):
+        rec.cmp(1, f"{cell}|{route}")
+        try:
+            fn = mk()
+            with np.errstate(all="ignore"):
+                got = np.asarray(fn(xarr.copy()), dtype=float)
+        except Exception as ex:
+            rec.violation(f"{route}:raises-at-singular-point:{type(ex).__name__}", {"show": show, "error": repr(ex)[:200], "cell": cell})
+            continue
+        if not np.all(np.isfinite(got)):
+            rec.violation(f"{route}(composite):non-finite-entry", {"show": show, "got": repr(got.reshape(-1)[:12].tolist()), "cell": cell})
+            continue
+        if route != "hessian":
+            g = got.reshape(-1)
+            for i, want in regular_idx.items():
+                rec.cmp(1, f"{cell}|{route}")
+                if not close(g[i], want, RTOL, 1e3)[0]:
+                    rec.violation(f"{route}(composite):regular-entry-changed", {"show": show, "entry": V[i], "got": float(g[i]), "want": want, "cell": cell})
+    rec.sample(show, cap=3)
+
+
 def _sumsq(vec, size):
     n = None
     for i in range(size):
@@ -449,6 +527,12 @@ def run(ctx, rec):
     for i, item in enumerate(directed_items()):
         if ctx.mine(i):
             run_item(rec, rng, item)
+    k = 0
+    for cell, node, spt in composite_items():
+        for rep in range(4):
+            k += 1
+            if ctx.mine(k):
+                run_composite(rec, rng, cell, node, spt, k)
     n = 0
     while n < N_RANDOM[ctx.tier] and not rec.out_of_time():
         n += 1
